@@ -2,6 +2,7 @@ package props
 
 import (
 	"crypto/x509"
+	"encoding/json"
 	"encoding/pem"
 	"fmt"
 	"net/url"
@@ -9,6 +10,7 @@ import (
 	"time"
 
 	"github.com/google/go-tdx-guest/verify"
+	"github.com/google/logger"
 	"verifharness/mon"
 	"verifharness/world"
 )
@@ -113,7 +115,7 @@ func stageEventsDefaultRoot(x *mon.Ctx) {
 		case !p.expect && accepted:
 			x.Violation(class, p.name, "verify.TdxQuote accepted although the collateral's signer (or its root) is outside its validity period at the document's entry of the time set", "verify", p.c)
 		case !p.expect && ok:
-			x.Violation(class, p.name, fmt.Sprintf("the library reports %q although, at this document's entry of the time set, its signer (or the root above it) is outside its validity period: the issuer chain was not judged at that time (the run then ended with: %s)", p.stage, errs), "none", map[string]any{"case": p.c, "stage_line": p.stage, "verdict_error": errs})
+			x.Violation(class, p.name, fmt.Sprintf("the library reports %q although, at this document's entry of the time set, its signer (or the root above it) is outside its validity period: the issuer chain was not judged at that time (the run then ended with: %s)", p.stage, errs), "stage", stageWitness{Case: p.c, Stage: p.stage, Err: errs})
 		case !p.expect:
 			refused++
 		}
@@ -123,12 +125,42 @@ func stageEventsDefaultRoot(x *mon.Ctx) {
 	x.Require(class, 6, 12, len(probes))
 }
 
+// stageWitness is what a stage-event violation records: the case and the stage line that must not appear for it.
+type stageWitness struct {
+	Case  *world.Case `json:"case"`
+	Stage string      `json:"stage_line"`
+	Err   string      `json:"verdict_error,omitempty"`
+}
+
+func init() {
+	Replayers["stage"] = func(raw json.RawMessage) string {
+		var w stageWitness
+		if json.Unmarshal(raw, &w) != nil || w.Case == nil {
+			return "unreadable case"
+		}
+		logger.SetLevel(1)
+		defer logger.SetLevel(0)
+		seen, accepted, errs := stageSeenWith(mon.CaptureLogAt, w.Case, w.Stage)
+		switch {
+		case accepted:
+			return "verify.TdxQuote accepted the case"
+		case seen:
+			return fmt.Sprintf("the library reports %q for this case (the run then ended with: %s)", w.Stage, errs)
+		}
+		return ""
+	}
+}
+
 // stageSeen runs one verification at verbosity 1 and reports whether the stage line appeared, the verdict and the error text.
 func stageSeen(x *mon.Ctx, c *world.Case, stage string) (seen, accepted bool, errs string) {
+	return stageSeenWith(x.CaptureLog, c, stage)
+}
+
+func stageSeenWith(capture func(int, func()) []string, c *world.Case, stage string) (seen, accepted bool, errs string) {
 	o, _ := mon.Options(c)
 	m := mon.MessageFor("built", c.Quote)
 	var err error
-	lines := x.CaptureLog(1, func() {
+	lines := capture(1, func() {
 		if pv, _ := mon.Guard(func() { err = verify.TdxQuote(m, o) }); pv != "" {
 			err = fmt.Errorf("panic: %s", pv)
 		}
